@@ -18,7 +18,8 @@ META = {
             "member is in QUAL. The unrepaired model is shown to violate it. The same directed and random behaviours as for "
             "C01 are replayed on the real code and the statement is decided on the real bn256 values: x_h*G2 equals the public "
             "key share every other honest member computed for h and every (t+1)-subset of honest shares interpolates to the "
-            "discrete logarithm of the group public key.",
+            "discrete logarithm of the group public key. Runs against a harness-chosen adversary are trace-validated against the "
+            "model with ShareConsistency evaluated on every state of the real traces.",
     "note": "Trusted: the harness' abstraction function; Lagrange interpolation and the G2 comparison are done by the harness with "
             "bn256 of go-ethereum (the library under test uses the same); all (t+1)-subsets of the honest members are checked "
             "(n<=5). Not covered: pkg/beacon/dkg/signer.go persistence of the share.",
@@ -41,7 +42,7 @@ def run(ctx):
              "TLC-simulated random adversaries (n=3,4,5, incl. behaviours that force reconstruction of a QUAL member's key); "
              "for every run in which the honest members agree, x_h*G2 is compared with the public key share computed by "
              "every other honest member and every (t+1)-subset of honest shares is interpolated and compared with the group "
-             "public key; every step is also compared with the model.",
+             "public key; every step is also compared with the model. Trace validation of harness-adversary runs as in C01.",
         assumptions=["same execution model as C01 (synchronous rounds, consistent broadcast, one operator per seat)",
                      "the harness' Lagrange interpolation and point comparison are correct",
                      "exhaustive exploration is bounded: n<=5, at most 2 corrupt, deviation budget 2 (3 for n=3)"],
